@@ -72,4 +72,37 @@ CHECKS["C16"] = {
     "technique": "hand-written bash-subset parser; errexit-context and guard annotation of every command; rule checks on the command tree",
 }
 
+CHECKS["C01"] = {
+    "text": "Decides structural necessary conditions of row/value correctness in the translator, not the equivalence itself: emission-cursor "
+            "typestate over every path of all ~48 handlers (a handler only pops what it pushed or restored; frozen handler contracts; passive "
+            "handlers never move the cursor; tuple/list/dict elements translated with retain_scope), Select/Where reuse the source iterator, "
+            "accumulator declared one block outside its loop and updated at the sequence-value scope, no variable initialiser computed from a "
+            "translated sub-expression (declarations are hoisted), rep cache reused only under starts_with, normalisation pipeline order, Fill "
+            "at the mainline scope, top_level_scope() only at frozen sites, both CMS configurations process all events. Breaking any of them "
+            "breaks rows/values for some query; holding all of them does not prove the rows right.",
+    "note": "Not decided (needs execution): LINQ row/value equivalence for all queries x events; the runtime scope algebra of util_scope "
+            "(starts_with, deepest_scope, [-1]) and code_fill_ttree's placement decisions; func_adl's own normalisations. Four known findings "
+            "(hoisted Range bounds and Aggregate seed, miniAOD maxEvents=10) are listed in known_findings.txt.",
+    "technique": "abstract interpretation of the emission cursor (typestate) over structured paths + def-use checks on ast",
+}
+CHECKS["C04"] = {
+    "text": "Decides the event order inside the four handlers that implement laziness and the First() protocol: later and/or operands and "
+            "both arms of a conditional are translated only after their guarding if/else block has been pushed, are assigned inside it, and "
+            "the cursor is restored; and/or polarity; Where pushes its if after translating the filter and publishes the scope inside it; "
+            "First declares its flag outside the loop with initial true, opens if(flag){flag=false} at the sequence-value scope and attaches "
+            "if(flag){throw} after the loop; indexing uses at(); container elements are translated with retain_scope.",
+    "note": "Trusted: the scope tokens place blocks as the typestate says (runtime scope algebra); C++ semantics of if/else/at(). Not decided: "
+            "that for every composition the guard block encloses the guarded statements at run time.",
+    "technique": "emission-cursor typestate over structured paths; template/def-use matching on ast",
+}
+CHECKS["C05"] = {
+    "text": "Decides who may create cross-event C++ state (class-level variables: only TTree columns and booking-time token fields), that "
+            "every push_back-filled column is cleared right after Fill under exactly rep_is_collection, that scalar columns are assigned "
+            "unconditionally, that read-modify-write temporaries are initialised block locals, that the class templates hold no other data "
+            "member/static/global, that the CMS configurations end the job on an exception, and that the runners rewrite the input list per run.",
+    "note": "Trusted: C++ block-local lifetime; execute()/analyze() is the only per-event code. Not decided: relative placement of push_back and "
+            "Fill/clear for an arbitrary composition; behaviour of opaque user C++ injected through metadata.",
+    "technique": "who-may-call + control-dependence + cursor typestate on ast; C++ class-body member scan of the templates; bash-subset parser",
+}
+
 NOT_APPLICABLE = {}
